@@ -170,6 +170,7 @@ func LookupXpathFunction(
 	customFnsAllowed bool,
 	userFnCheckFn UserCustomFunctionCheckerFn,
 ) (*Symbol, bool) {
+	verifYield(1)
 	mu.Lock()         // Lock before accessing shared data
 	defer mu.Unlock() // Ensure the mutex is unlocked when the function exits
 
